@@ -276,8 +276,16 @@ def handle (op : String) (args : List String) : String :=
       | .ok (l, t, st) => "ok\t" ++ (SExpr.list [l.toSExpr, renderTy t, .list (PyVal.toSExprL st.md), strsToSExpr st.log]).render
       | .error err => "err\t" ++ err.render)
     | _, _, _ => bad
-  | "ev", [ds, env, e] => match parseVal ds, parseEnv env, parseExpr e with
+  | "simp", [c, e] => match c.toNat?, parseExpr e with
+    | some c, some e => (match simplify (400 * e.size + 400) c e with
+      | .ok (e', _) => okE e'
+      | .error err => "err\t" ++ err.render)
+    | _, _ => bad
+  | "evStrict", [ds, env, e] => match parseVal ds, parseEnv env, parseExpr e with
     | some ds, some env, some e => resStr (ev (driverWorld ds) (Env.ofList env.reverse) e)
+    | _, _, _ => bad
+  | "ev", [ds, env, e] => match parseVal ds, parseEnv env, parseExpr e with
+    | some ds, some env, some e => resStr (evLz (driverWorld ds) (Env.ofList env.reverse) e)
     | _, _, _ => bad
   | "table", [n] =>
     if n = "opNames" then "ok\t" ++ (strsToSExpr opNames).render
